@@ -384,3 +384,49 @@ reg(P("C17", "plugins", "c17",
       sig_reset=("kind",), sig_event=("ev", "res"),
       mutate=_c17_mutate, design_ref="DESIGN.md §6 C17",
       technique="TLC model checking of LimiterImpl (semaphore interleavings, rate bound) + TLC trace validation with interval arithmetic"))
+
+
+def _mux_mutate(rec):
+    if rec.get("ev") == "ret" and rec.get("kind") == "resp":
+        rec["rn"] = rec["rn"] + 1
+        return rec
+    if rec.get("ev") == "quiesce":
+        rec["pending"] = 1
+        return rec
+    return None
+
+
+_MUX_COMMON_ASSUME = ["the peer is scripted by the harness with its own implementation of the three frame formats",
+                      "a call counts as hanging when it has not returned 2 s (plus its deadline) after the last step of "
+                      "the schedule; normal latency is well under 10 ms"]
+reg(P("C09", "mux", "c09",
+      mc={"quick": [("MuxMC", "Mux_c09.cfg", 600), ("MuxMC", "Mux_c09_wrapfix.cfg", 600),
+                    ("MuxMC", "Mux_c09_bug_wrap.cfg", 600, "violation")],
+          "thorough": [("MuxMC", "Mux_c09.cfg", 600), ("MuxMC", "Mux_c09_wrapfix.cfg", 600), ("MuxMC", "Mux_c10.cfg", 1200),
+                       ("MuxMC", "Mux_c09_bug_wrap.cfg", 600, "violation")]},
+      traces=[("", "MuxTrace", "MuxTrace.cfg")],
+      level="model_checking",
+      rule="cases = {tcp, unix, udp, websocket} x {answers in reverse order, shuffled, with duplicated responses carrying "
+           "foreign payloads, with stray indices, index wrap-around forced through the counter accessor} x rounds of "
+           "concurrent callers on one connection; every caller's payload is unique and the reply is a function of the "
+           "request; non-trivial = every case (>= 12 concurrent callers or a forced wrap)",
+      assumptions=_MUX_COMMON_ASSUME + ["wrap-around is produced by setting the request counter through a verif-only accessor"],
+      sig_reset=("kind", "mode"), sig_event=("ev", "kind"),
+      mutate=_mux_mutate, design_ref="DESIGN.md §6 C09",
+      technique="TLC model checking of Mux.tla (OwnResponse over all interleavings, answer orders, duplicates, strays, wrap) + TLC trace validation of real concurrent calls against MuxMonitor"))
+
+reg(P("C10", "mux", "c10",
+      mc={"quick": [("MuxMC", "Mux_c10.cfg", 900),
+                    ("MuxMC", "Mux_c10_bug_orphan.cfg", 600, "violation"), ("MuxMC", "Mux_c10_bug_leak.cfg", 600, "violation")],
+          "thorough": [("MuxMC", "Mux_c10.cfg", 900), ("MuxMC", "Mux_c10_live.cfg", 1700), ("MuxMC", "Mux_c10_mid.cfg", 1700),
+                       ("MuxMC", "Mux_c10_bug_orphan.cfg", 600, "violation"), ("MuxMC", "Mux_c10_bug_leak.cfg", 600, "violation")]},
+      traces=[("", "MuxTrace", "MuxTrace.cfg")],
+      level="model_checking",
+      rule="cases = {tcp, unix, udp, websocket} x every interleaving of two callers' steps (obtain connection, register, "
+           "select) x fault {peer close, Abort, garbage frame, error frame, silent peer with deadline} x every position "
+           "of the fault in the interleaving (2740 schedules; thorough runs all, quick a seeded slice covering every "
+           "(transport, fault, position) class); callers are stepped through verif yield points; non-trivial = a fault occurs",
+      assumptions=_MUX_COMMON_ASSUME + ["goroutine census is taken when no connection is pooled, polled for up to 3 s"],
+      sig_reset=("kind", "fault"), sig_event=("ev", "kind"),
+      mutate=_mux_mutate, design_ref="DESIGN.md §6 C10",
+      technique="TLC model checking of Mux.tla (NoOrphan, NoLeakedSender, CleanAtQuiescence, liveness under fairness) + gate-stepped schedules on the real transports validated against MuxMonitor"))
